@@ -112,6 +112,15 @@ Definition v_pad (b0 a0 b1 a1 b2 a2 : Z) (m : padmode) (value : Q) (v : view) : 
               | _ => vat v (pad_coord m h i', pad_coord m w j', pad_coord m d k')
               end).
 
+(* ---- constant arrays and np.where with a boolean mask array (the mask is its indicator function) ---- *)
+Definition bmask : Type := idx -> bool.
+Definition v_full (sh : shape3) (value : Q) : view := mkView sh (fun _ => Fill value).
+Definition v_where (m : bmask) (a b : view) : view :=
+  mkView (vshape b) (fun o => if m o then vat a o else vat b o).
+Definition idx_eqb (a b : idx) : bool :=
+  let '(i, j, k) := a in let '(i', j', k') := b in (i =? i') && (j =? j') && (k =? k').
+Definition mask_of_list (l : list idx) : bmask := fun o => existsb (idx_eqb o) l.
+
 (* ---- enumeration of a view for the correspondence check ---- *)
 Fixpoint zrange (n : nat) (from : Z) : list Z :=
   match n with O => [] | S m => from :: zrange m (from + 1) end.
